@@ -502,10 +502,12 @@ impl SlabRouter {
             return self.put(key, value);
         }
 
-        // Log to WAL first (if configured)
-        if let Some(wal_mutex) = &self.wal {
-            let mut wal = wal_mutex.lock();
-
+        // Log to WAL first (if configured). The WAL lock is held until the write has been
+        // applied to memory, so concurrent durable writes take effect in the order in which
+        // they were logged (otherwise replay after a crash could end in a different state
+        // than the one readers last saw).
+        let mut wal_guard = self.wal.as_ref().map(|wal_mutex| wal_mutex.lock());
+        if let Some(wal) = wal_guard.as_mut() {
             // One record per put: the value carries its `_embedding`, and replay restores the
             // embedding slab from it by key. (A separate entity-id based embedding record made
             // the put non-atomic across a crash and, because entity ids are reassigned during
@@ -522,7 +524,9 @@ impl SlabRouter {
         crate::verif_hooks::point("put_durable:after_log");
 
         // Apply to in-memory state
-        self.put(key, value)
+        let result = self.put(key, value);
+        drop(wal_guard);
+        result
     }
 
     /// Delete a value durably, logging to WAL before applying.
@@ -538,10 +542,10 @@ impl SlabRouter {
             return self.delete(key);
         }
 
-        // Log to WAL first (if configured)
-        if let Some(wal_mutex) = &self.wal {
-            let mut wal = wal_mutex.lock();
-
+        // Log to WAL first (if configured); the WAL lock is held until the delete has been
+        // applied to memory (see `put_durable`).
+        let mut wal_guard = self.wal.as_ref().map(|wal_mutex| wal_mutex.lock());
+        if let Some(wal) = wal_guard.as_mut() {
             // One record per delete: replay removes the embedding and the index entry by key.
             // Log metadata delete (sync behavior depends on WalConfig::sync_mode)
             wal.append(&WalEntry::MetadataDelete {
@@ -554,7 +558,9 @@ impl SlabRouter {
         crate::verif_hooks::point("delete_durable:after_log");
 
         // Apply to in-memory state
-        self.delete(key)
+        let result = self.delete(key);
+        drop(wal_guard);
+        result
     }
 
     /// Create a checkpoint by saving a snapshot and marking WAL position.
